@@ -327,6 +327,12 @@ func probesFor(u *universe, r *rand.Rand, ndocs int, light bool) *Probes {
 	}
 	if len(u.thes) > 0 {
 		p.Thes["absent\x01thes"] = []string{"a"}
+		// ordinary fields are not thesauri
+		for f := range u.fields {
+			if _, ok := u.thes[f]; !ok {
+				p.Thes[f] = []string{"a", "absent\x01lhs"}
+			}
+		}
 		p.SynEx = [][]int{nil, {}}
 		for k := 0; k < 3 && ndocs > 0; k++ {
 			ex := []int{}
